@@ -11,7 +11,7 @@ PROP = {'areas': [{'area': 'engine',
             'extra': ['100'],
             'only_prop': 'C11',
             'quick': 12000,
-            'thorough': 1000000,
+            'thorough': 2000000,
             'tie_fields': ['outcome', 'st', 'out', 'done', 'ops']},
            {'area': 'c03',
             'corpus': ['corpus/C03/d1_unsuback_143.txt', 'corpus/C03/framing.txt', 'corpus/C03/packets.txt'],
